@@ -59,6 +59,9 @@ func TestC07(t *testing.T) {
 		cases = append(cases, mon.CaseSpec{Name: "slow-respondent", Spec: c07Spec{Mode: "slow", NCtx: 1 + rnd.Intn(2), NPipes: 2, NOps: rnd.Intn(20)}})
 	}
 	for i := 0; i < r.Pick(16, 400); i++ {
+		cases = append(cases, mon.CaseSpec{Name: "expired", Spec: c07Spec{Mode: "expired", NOps: i, NCtx: 1 + (i/2)%2}})
+	}
+	for i := 0; i < r.Pick(16, 400); i++ {
 		cases = append(cases, mon.CaseSpec{Name: "rawq", Spec: c07Spec{Mode: "rawq", NOps: i, NPipes: rnd.Intn(3)}})
 	}
 	for i := 0; i < r.Pick(24, 600); i++ {
@@ -71,6 +74,8 @@ func TestC07(t *testing.T) {
 			c07OpenCtx(c, sp)
 		case "rawq":
 			c07RawQ(c, sp)
+		case "expired":
+			c07Expired(c, sp)
 		case "slow":
 			c07Slow(c, sp)
 		case "script":
